@@ -123,6 +123,12 @@ func Build(t rm.Table, o BuildOpt) (b *Built) {
 	for _, si := range order {
 		s := t.Svcs[si]
 		ws := new(restful.WebService).Path(s.Root)
+		if len(s.Consumes) > 0 {
+			ws.Consumes(s.Consumes...)
+		}
+		if len(s.Produces) > 0 {
+			ws.Produces(s.Produces...)
+		}
 		if o.Dynamic {
 			ws.SetDynamicRoutes(true)
 		}
